@@ -384,6 +384,7 @@ fn main() {
             }
             "chain_link" => chain_link(p[1].parse().unwrap()),
             "cert_hash" => cert_hash(p[1]),
+            "leaf_eqx" => leaf_eqx(p[1]),
             "cert_roundtrip" => cert_roundtrip(),
             "pm_hash" => pm_hash(p[1]),
             "epoch_gap" => {
@@ -571,4 +572,29 @@ fn cert_roundtrip() -> String {
         if !same_fields { bad.push(format!("{}:field-changed", i)); }
     }
     if bad.is_empty() { format!("roundtrip ok over {} certificates", certs.len()) } else { format!("roundtrip VIOLATED {}", bad.join(" ")) }
+}
+
+
+/// leaf_eqx <hex of JSON {"level": "item"|"node", "a": {"kind": "block"|"tx", "fields": [..]}, "b": {..}}>: are the two Merkle leaves equal?
+/// block fields: [block_hash, block_number, slot_number]; tx fields: [transaction_hash, block_hash, block_number, slot_number]
+fn leaf_eqx(spec_hex: &str) -> String {
+    use mithril_common::crypto_helper::MKTreeNode;
+    use mithril_common::entities::{CardanoBlock, CardanoBlockTransactionMkTreeNode as Node, CardanoTransaction};
+    let spec: serde_json::Value = match serde_json::from_str(&unhex(spec_hex)) { Ok(v) => v, Err(e) => return format!("unsupported (spec: {})", e) };
+    let item = spec["level"].as_str() == Some("item");
+    let mk = |v: &serde_json::Value| -> Option<MKTreeNode> {
+        let f = v["fields"].as_array()?;
+        let s = |i: usize| f.get(i).and_then(|x| x.as_str()).unwrap_or("").to_string();
+        let n = |i: usize| f.get(i).and_then(|x| x.as_u64().or_else(|| x.as_str().and_then(|t| t.parse().ok()))).unwrap_or(0);
+        Some(match (v["kind"].as_str()?, item) {
+            ("block", true) => { let node: Node = CardanoBlock::new(s(0), BlockNumber(n(1)), SlotNumber(n(2))).into(); node.into() }
+            ("block", false) => Node::Block { block_hash: s(0), block_number: BlockNumber(n(1)), slot_number: SlotNumber(n(2)) }.into(),
+            ("tx", true) => { let node: Node = CardanoTransaction::new(s(0), BlockNumber(n(2)), SlotNumber(n(3)), s(1)).into(); node.into() }
+            _ => Node::Transaction { transaction_hash: s(0), block_hash: s(1), block_number: BlockNumber(n(2)), slot_number: SlotNumber(n(3)) }.into(),
+        })
+    };
+    match (mk(&spec["a"]), mk(&spec["b"])) {
+        (Some(a), Some(b)) => if a == b { "equal".to_string() } else { "different".to_string() },
+        _ => "unsupported".to_string(),
+    }
 }
